@@ -1,0 +1,44 @@
+// Copyright 2022 Yahoo Inc.
+// Licensed under the terms of the Apache License 2.0. Please see LICENSE file in project root for terms.
+
+package shimagent
+
+import (
+	"fmt"
+
+	"golang.org/x/crypto/ssh"
+	"golang.org/x/crypto/ssh/agent"
+)
+
+// safeAgent wraps the client of the underlying agent. The x/crypto agent client panics
+// ("unreachable") when the agent answers a list or sign request with a well-formed message
+// of an unexpected type; such a reply is reported as an error instead of crashing the shim.
+type safeAgent struct {
+	agent.ExtendedAgent
+}
+
+func recoverAgentPanic(err *error) {
+	if r := recover(); r != nil {
+		*err = fmt.Errorf("agent: unexpected response from the underlying agent: %v", r)
+	}
+}
+
+func (a safeAgent) List() (keys []*agent.Key, err error) {
+	defer recoverAgentPanic(&err)
+	return a.ExtendedAgent.List()
+}
+
+func (a safeAgent) Signers() (signers []ssh.Signer, err error) {
+	defer recoverAgentPanic(&err)
+	return a.ExtendedAgent.Signers()
+}
+
+func (a safeAgent) Sign(key ssh.PublicKey, data []byte) (sig *ssh.Signature, err error) {
+	defer recoverAgentPanic(&err)
+	return a.ExtendedAgent.Sign(key, data)
+}
+
+func (a safeAgent) SignWithFlags(key ssh.PublicKey, data []byte, flags agent.SignatureFlags) (sig *ssh.Signature, err error) {
+	defer recoverAgentPanic(&err)
+	return a.ExtendedAgent.SignWithFlags(key, data, flags)
+}
